@@ -331,9 +331,11 @@ def handleFault (focus : String) (c : Case) : String := Id.run do
         if hasStats then
           acc := { acc with mon := acc.mon.push "statistics-returned-although-a-model-call-failed" }
         if !withStats then
-          match term with
-          | .user _ => pure ()
-          | _ => acc := { acc with mon := acc.mon.push s!"failure-during-fit-but-termination-{termS}" }
+          -- the reported reason must not be a SUCCESSFUL one.  (It need not be `User(..)`: a failure in
+          -- the optimizer's final re-application of the accepted parameters comes after the reason was
+          -- decided; an unsuccessful reason such as NoImprovementPossible then stands, and the fit is Err.)
+          if term.wasSuccessful then
+            acc := { acc with mon := acc.mon.push s!"failure-during-fit-but-successful-termination-{termS}" }
       else
         -- no failure reached during the fit: it must behave like the fault-free fit (same decision rule)
         if (kind == "ok") != term.wasSuccessful && !withStats then
@@ -427,6 +429,12 @@ def handleConv (focus : String) (c : Case) : String := Id.run do
   let reproTol := if width == 32 then 5e-3 else 1e-11
   let cosTol := if width == 32 then 0.4 else 2e-5
   let ssqSlack := if width == 32 then 2e-2 else 1e-6
+  -- the residuals of the result are those of the parameters it reports (a problem freshly built there
+  -- computes the same numbers with the same code: bit for bit on a correct library)
+  if let some coh := getF "coh" then
+    acc := { acc with compared := acc.compared + 1 }
+    if !(coh ≤ 1e-13) then
+      acc := { acc with mon := acc.mon.push s!"returned-residuals-are-not-those-of-the-returned-parameters:{fmtF coh}" }
   match getF "repro", getF "ssqfit", getF "ssqtruth", getF "maxcos" with
   | some repro, some ssqfit, some ssqtruth, some maxcos =>
     acc := { acc with compared := acc.compared + 3 }
